@@ -168,7 +168,7 @@ def to_wire(f, ext=False):
         return ["independent", to_wire(f.fn, ext), Q(f.reals_var), Q(f.bint_var), Q(f.diag_var),
                 int(f.fn.inputs[f.bint_var].size)]
     if isinstance(f, Align):
-        return ["align", to_wire(f.arg, ext), [Q(n) for n in f.names]]
+        return ["align", to_wire(f.arg, ext), [Q(n) for n in f._ast_values[1]]]
     if isinstance(f, Contraction):
         r, b = opname(f.red_op), opname(f.bin_op)
         if r not in ASSOC or b not in ASSOC:
